@@ -126,6 +126,11 @@ def contaminate(tree, desc, ins):
         if fn is None:
             continue
         node, lab = fn
+        if len(node) and len(elem):
+            # an unknown / vendor aggregate may contain anything - also a copy of one of the enclosing aggregate's own
+            # children: if the wrapper were lost, the copy would surface as a duplicate or an extra list member
+            node.append(copy.deepcopy(elem[k % len(elem)]))
+            lab += "/with-copy-of-sibling"
         p = pos % (len(elem) + 1)
         if p < len(elem):
             not_at_end = True
@@ -174,7 +179,7 @@ def check_case(case):
         labels, _ = contaminate(dirty, desc, case["ins"])
         if not labels:
             return []
-        kinds = "+".join(sorted(set(l.split("/")[0] for l in labels)))
+        kinds = "+".join(sorted(set(l.split("/")[0] for l in labels)))  # root-cause key: kinds of insertion
         for route in case.get("routes", ["etree", "xml", "sgml"]):
             try:
                 base = convert_via(route, clean)
